@@ -49,6 +49,13 @@ expression may use them too; the driver computes their float values, so the bloc
 module must resolve every name the in-process solver resolves (C20_ResolvesSolverNames, C20_Closed over the
 module's own globals, which the driver reads from the import statements of the written file).
 
+Histories and text (eighth follow-up): two-block histories on ONE generator object (IterativeMachineGenerator(A)
+.main(file); ParseString(B); main(file)): every per-block attribute of B's module - tolerance, horizon, lists,
+chained lags, k - must be B's (C20_AttributesFromCurrentBlock; A differs from B in all of them).  Blocks that are
+a time axis only (n = 0: `t = 1.0`, an exogenous t) have ONE variable: the iteration vector must still be a
+tuple (C20_VectorIsTuple).  Comments (plain, a Windows path, \\N / \\x) are inert.  A variable named like the
+template placeholder ITERATOR must be refused like the other names of the generated class.
+
 Step index (seventh follow-up): ordinary equations (+ 0.25*k) and a user-defined time equation (t = 0.25*k +
 2000.0) read the step index k under every kind of time axis; the module must bind k whenever an equation reads it
 (C20_Closed; GenEqOp adds k whenever ReadsK, not only for the injected t = k).
@@ -96,11 +103,15 @@ from harness import core
 NAMESETS = [['x', 'y', 'z', 'c0'],                               # = NameSets of MC_Codegen
             ['err', 'new_vector', 'in_vec', 'cnt'],
             ['STEP', 'main', 'orig_vector', 'MaxIterations'],
-            ['x', 'NEW_x', 'z', 'c0']]
-PARAM_VALUE = [2, 500, 2, 2]                                         # the parameter line: c0 = 2.0 / cnt = 500.0 / ...
+            ['x', 'NEW_x', 'z', 'c0'],
+            ['ITERATOR', 'y', 'z', 'c0']]
+PARAM_VALUE = [2, 500, 2, 2, 2]
+# cm: comments in the block text (inert for the parser; the whole text goes into the module's docstring)
+COMMENTS = [None, '(3.1) household sector, plain comment', r'data copied from C:\Users\new\table.txt',
+            r'rates in \N per \x quarter']                                         # the parameter line: c0 = 2.0 / cnt = 500.0 / ...
 LOOP_NAMES = ('err', 'cnt')                                       # = LoopNames of Codegen
 OWN_NAMES = ('STEP', 'MaxTime', 'MaxIterations', 'Err_Tolerance', 'PrintIterations', 'VariableList', 'main',
-             'RunOneStep', 'Iterator', 'CalcError', 'WriteCSV', 'CreateCsvString', 'orig_vector')   # = ModuleOwnNames
+             'RunOneStep', 'Iterator', 'CalcError', 'WriteCSV', 'CreateCsvString', 'orig_vector', 'ITERATOR')   # = ModuleOwnNames
 # = MathNames of MC_Codegen / MC_Codegen_Trace.cfg: names of the math module the blocks use
 MATH_NAMES = ['sqrt', 'exp', 'log', 'floor', 'pi', 'tanh', 'sinh', 'cosh', 'atan2', 'log1p', 'expm1', 'log2', 'hypot',
               'e', 'tau', 'erf', 'copysign', 'degrees', 'gamma', 'trunc', 'fabs']
@@ -119,8 +130,8 @@ PARAM_SPELLINGS = [None, '4/2', '0.5*4', '(2.0)', '- 2.0', '2*0.3', '3/5', '0.04
 # = TimeWrapReads of MC_Codegen (tw): spellings of the time trend, all equal to t for t >= 0
 TIME_WRAPS = ['t', 'max(t, 0.0)', 'hypot(t, 0.0)', 'abs(t)', 'copysign(t, 1.0)']
 RESERVED_ATTRS = ('MaxIterations', 'MaxTime', 'STEP', 'PrintIterations', 'Err_Tolerance', 'VariableList')
-NAME_FIELDS = ('endo', 'lagged', 'exos', 'ics', 'maxTime', 'foundT', 'reduce')
-GRAMMAR_FIELDS = ('n', 'A', 'lag', 'ic', 'exo', 'cst', 'userT', 'useT', 'tol', 'maxTime', 'nm', 'fn', 'tw', 'red', 'al', 'ps', 'uk')
+NAME_FIELDS = ('endo', 'lagged', 'exos', 'ics', 'maxTime', 'foundT', 'reduce', 'tolText')
+GRAMMAR_FIELDS = ('n', 'A', 'lag', 'ic', 'exo', 'cst', 'userT', 'useT', 'tol', 'maxTime', 'nm', 'fn', 'tw', 'red', 'al', 'ps', 'uk', 'cm')
 REGEN_FRACTION_QUICK = 1.0 / 3.0
 
 
@@ -135,7 +146,7 @@ def system(block):
     nm = block.get('nm', 0)
     names = NAMESETS[nm][:n]
     param = NAMESETS[nm][3]
-    last = names[-1]
+    last = names[-1] if names else None          # n = 0: the block is its time axis only
     eqs = {}
     for i, v in enumerate(names):
         e = {'same': {}, 'lag': {}, 'const': F(0), 'k': F(0), 'const_text': None}
@@ -185,6 +196,8 @@ def system(block):
     if block['userT'] == 'endo':
         eqs['t'] = {'same': {}, 'lag': {'t': F(1)}, 'const': F(1), 'k': F(0), 'const_text': None,
                     'lag_terms': [('t_minus_1', 't', F(1))]}
+    elif block['userT'] == 'const':                          # t = 1.0
+        eqs['t'] = {'same': {}, 'lag': {}, 'const': F(1), 'k': F(0), 'const_text': None}
     elif block['userT'] == 'endok':                          # a user time axis written with the step index
         eqs['t'] = {'same': {}, 'lag': {}, 'const': F(2000), 'k': F(1, 4), 'const_text': None}
     elif block['userT'] == 'none':
@@ -245,6 +258,8 @@ def _rhs(e, lagname):
 
 def lag_lines(block):
     """(lagged name, source) of the lag lines of the block, in text order (= MkBlock.lagged without t_minus_1)."""
+    if block['n'] == 0:
+        return []
     last = NAMESETS[block.get('nm', 0)][block['n'] - 1]
     l1, l2, lb = ('LAG_' + last, last), ('LAG2_' + last, 'LAG_' + last), ('LAGB_' + last, 'LAG_' + last)
     return {0: [], 1: [l1], 2: [l1], 3: [l1, l2], 4: [l1, l2, lb], 5: [l2, lb, l1], 6: [l2, l1, lb]}[block['lag']]
@@ -265,13 +280,18 @@ def render(block):
     if block['userT'] == 'endo':
         lines.append('t = t_minus_1 + 1.0')
         lines.append('t_minus_1 = t(k-1)')
-    if block['userT'] == 'endok':
+    if block['userT'] in ('endok', 'const'):
         lines.append('t = ' + _rhs(sysm['eqs']['t'], sysm['lagname']))
     if block['ic']:
         lines.append('%s(0) = 10.0' % sysm['last'])
     if block['tol']:
         lines.append('Err_Tolerance = ' + tolerance_text(block))
     lines.append('MaxTime = %d' % block['maxTime'])
+    cm = block.get('cm', 0)
+    if cm == 1:
+        lines[0] += '      # ' + COMMENTS[1]
+    elif cm:
+        lines.insert(0, '# ' + COMMENTS[cm])
     if sysm['paths']:
         lines.append('# Exogenous variables')
         for nm in sysm['paths']:
@@ -346,7 +366,7 @@ def _index_kind(node):
     return ast.unparse(node)
 
 
-EMPTY_SECTIONS = {'globals': [], 'declReads': [], 'decl': [], 'pack': [], 'orig': [], 'iterUnpack': [], 'iterBinds': [], 'iterReads': [],
+EMPTY_SECTIONS = {'tol': '', 'maxTime': -1, 'vectorIsTuple': True, 'globals': [], 'declReads': [], 'decl': [], 'pack': [], 'orig': [], 'iterUnpack': [], 'iterBinds': [], 'iterReads': [],
                   'unpack': [], 'varList': [], 'loopAfterPack': True}
 
 
@@ -360,7 +380,12 @@ def sections_of(path):
     all_globals = [set()]
     try:
         with open(path) as f:
-            tree = ast.parse(f.read())
+            source = f.read()
+        m = re.search(r'^\s*self\.Err_Tolerance = (.*?)\s*$', source, re.M)
+        out['tol'] = m.group(1) if m else ''
+        m = re.search(r'^\s*self\.MaxTime = (\d+)\s*$', source, re.M)
+        out['maxTime'] = int(m.group(1)) if m else -1
+        tree = ast.parse(source)
         cls = [n for n in tree.body if isinstance(n, ast.ClassDef) and n.name == 'SFCModel'][0]
         fn = {f.name: f for f in cls.body if isinstance(f, ast.FunctionDef)}
         # names the module's global namespace provides: its imports (a star import of math gives every public
@@ -394,6 +419,7 @@ def sections_of(path):
         body = fn['Iterator'].body
         tgt = body[0].targets[0]
         out['iterUnpack'] = [e.id for e in tgt.elts] if isinstance(tgt, ast.Tuple) else [tgt.id]
+        tuples = [isinstance(tgt, ast.Tuple)]
         returned = None
         for st in body[1:]:
             if isinstance(st, ast.Assign) and isinstance(st.targets[0], ast.Name):
@@ -403,6 +429,7 @@ def sections_of(path):
             elif isinstance(st, ast.Return):
                 v = st.value
                 returned = [e.id for e in v.elts] if isinstance(v, ast.Tuple) else [getattr(v, 'id', '?')]
+                tuples.append(isinstance(v, ast.Tuple))
         if returned != ['NEW_' + b for b in out['iterBinds']]:
             out['iterBinds'].append('<return-mismatch>')
         stage = 'pack'
@@ -419,6 +446,7 @@ def sections_of(path):
                 if nm == 'orig_vector' and stage == 'pack':
                     v = st.value
                     out['orig'] = [e.id for e in v.elts] if isinstance(v, ast.Tuple) else [getattr(v, 'id', '?')]
+                    tuples.append(isinstance(v, ast.Tuple))
                     stage = 'after'
                 elif stage == 'pack' and isinstance(st.value, ast.Subscript) and _is_self_attr(st.value.value):
                     out['pack'].append({'name': nm, 'series': st.value.value.attr,
@@ -435,6 +463,7 @@ def sections_of(path):
                 out['unpack'].append({'name': st.value.func.value.attr, 'pos': pos})
         # the loop state is initialised after every variable has been packed into locals
         out['loopAfterPack'] = bool(loop_init_at) and min(loop_init_at) > last_pack_at
+        out['vectorIsTuple'] = all(tuples)
     except Exception:
         return _empty_sections(), False, set()
     return out, True, all_globals[0]
@@ -606,11 +635,12 @@ def solve_in_process(text, k0, horizon):
         return None, _exc(e)
 
 
-def _one_generation(block, gen, text, path, uid, cache):
+def _one_generation(block, gen, text, path, uid, cache, run=True):
     """gen.main(path), then the written module: sections, import, construction, run, table.
     -> (events, info); info['complete'] is True when the module ran to MaxTime without an exception."""
     math_ns = {k: getattr(math, k) for k in dir(math) if not k.startswith('_')}
     info = {'stage': '', 'exc': '', 'unbound': [], 'loop_captured': [], 'own_captured': [], 'chained_lags': [],
+            'tol_text': None, 'vector_tuple': True, 'own_in_block': [],
             'series': {}, 'inproc_exc': '', 'flags': {}, 'complete': False,
             'header': None, 'csv_exc': ''}
     events = []
@@ -645,6 +675,11 @@ def _one_generation(block, gen, text, path, uid, cache):
                                   {nm for nm in packed if nm.startswith('NEW_') and nm[4:] in packed})
     info['chained_lags'] = sorted({p['series'] for p in sec['pack'] if p['idx'] == 'STEP-1'} &
                                   {str(nm) for nm, dummy in gen.Lagged})
+    info['tol_text'] = sec['tol']
+    info['vector_tuple'] = sec['vectorIsTuple']
+    info['own_in_block'] = sorted({str(nm) for nm, dummy in gen.Endogenous + gen.Lagged + gen.Exogenous} & set(OWN_NAMES))
+    if not run:                   # the first block of a two-block history is only generated
+        return events, info
 
     # --- Import: exec the file under a unique module name, construct SFCModel
     obj = None
@@ -740,38 +775,76 @@ def _one_generation(block, gen, text, path, uid, cache):
     return events, info
 
 
+def _observed_lists(gen):
+    """What the generator object holds after ParseString (one shape for ParseBlock and Reparse events)."""
+    math_ns = _math_namespace()
+    exos = []
+    for nm, value in gen.Exogenous:
+        try:
+            ln = len(eval(value, dict(math_ns)))
+        except Exception:
+            ln = -1
+        exos.append({'name': str(nm), 'len': ln, 'reads': sorted(set(names_in(value)) & UNIVERSE)})
+    return dict(ok=True,
+                endo=[{'name': str(nm), 'reads': names_in(eq)} for nm, eq in gen.Endogenous],
+                lagged=[{'name': str(nm), 'of': str(of)} for nm, of in gen.Lagged],
+                exos=exos, ics=sorted(str(x) for x in gen.InitialConditions), maxTime=int(gen.MaxTime),
+                tol=str(gen.Err_Tolerance))
+
+
+NO_LISTS = dict(ok=False, endo=[], lagged=[], exos=[], ics=[], maxTime=0, tol='')
+
+
 def execute(block, scratch, uid, regenerate=False):
     """Run one block through the real generator, the written module(s) and the in-process solver.
-    regenerate: call main(<second file>) again on the SAME generator object after the first module ran to
+    block['first'] (optional): another block that the SAME generator object parses and generates first
+    (IterativeMachineGenerator(first).main(file); then ParseString(block) on that object).
+    regenerate: call main(<second file>) again on the same generator object after the first module ran to
     MaxTime, and import / run / judge that module as well.
-    Returns (events, record); record['gens'] holds per written module what signatures and reports need."""
+    Returns (events, record); record['gens'] holds per written module of `block` what signatures and reports need."""
     from sfc_models.deprecated.iterative_machine_generator import IterativeMachineGenerator
+    first = block.get('first')
     check_grammar_binding(block)
     text = render(block)
     rec = {'text': text, 'parse_exc': '', 'gens': []}
     events = []
-    math_ns = {k: getattr(math, k) for k in dir(math) if not k.startswith('_')}
-
-    # --- ParseBlock
-    ev = {'ev': 'ParseBlock', 'block': name_level(block)}
+    cache = {}
     gen = None
-    try:
-        gen = IterativeMachineGenerator(text, run_equation_reduction=bool(block.get('red', False)))
-        exos = []
-        for nm, value in gen.Exogenous:
-            try:
-                ln = len(eval(value, dict(math_ns)))
-            except Exception:
-                ln = -1
-            exos.append({'name': str(nm), 'len': ln, 'reads': sorted(set(names_in(value)) & UNIVERSE)})
-        ev.update(ok=True,
-                  endo=[{'name': str(nm), 'reads': names_in(eq)} for nm, eq in gen.Endogenous],
-                  lagged=[{'name': str(nm), 'of': str(of)} for nm, of in gen.Lagged],
-                  exos=exos, ics=sorted(str(x) for x in gen.InitialConditions), maxTime=int(gen.MaxTime))
-    except Exception as e:
-        rec['parse_exc'] = _exc(e)
-        ev.update(ok=False, endo=[], lagged=[], exos=[], ics=[], maxTime=0)
-    events.append(ev)
+    if first:
+        check_grammar_binding(first)
+        first_text = render(first)
+        rec['first_text'] = first_text
+        ev = {'ev': 'ParseBlock', 'block': name_level(first)}
+        try:
+            gen = IterativeMachineGenerator(first_text, run_equation_reduction=bool(first.get('red', False)))
+            ev.update(_observed_lists(gen))
+        except Exception as e:
+            raise core.MachineryError('the first block of a two-block history is refused: %s' % _exc(e))
+        events.append(ev)
+        evs, dummy = _one_generation(first, gen, first_text, os.path.join(scratch, 'c20gen_%s_first.py' % uid),
+                                     uid + '_first', cache, run=False)
+        events.extend(evs)
+        # --- Reparse: the same object is given the block under test
+        ev = {'ev': 'Reparse', 'block': name_level(block)}
+        try:
+            gen.RunEquationReduction = bool(block.get('red', False))
+            gen.ParseString(text)
+            ev.update(_observed_lists(gen))
+        except Exception as e:
+            rec['parse_exc'] = _exc(e)
+            ev.update(NO_LISTS)
+            gen = None
+        events.append(ev)
+    else:
+        # --- ParseBlock
+        ev = {'ev': 'ParseBlock', 'block': name_level(block)}
+        try:
+            gen = IterativeMachineGenerator(text, run_equation_reduction=bool(block.get('red', False)))
+            ev.update(_observed_lists(gen))
+        except Exception as e:
+            rec['parse_exc'] = _exc(e)
+            ev.update(NO_LISTS)
+        events.append(ev)
     if gen is None:
         return events, rec
     cache = {}
@@ -811,10 +884,21 @@ def execute_all(blocks, scratch, regen):
 # verdicts
 # --------------------------------------------------------------------------------------
 
-def _signature_of_generation(clause, block, want, endo, info):
+def _signature_of_generation(clause, block, want, endo, info, probe=False):
     """What is wrong for this clause with the module of one generation (None: nothing)."""
     root = None
-    if info['own_captured'] and all(nm.startswith('NEW_') for nm in info['own_captured']):
+    if probe:
+        pass
+    elif info['own_in_block'] and not info['own_captured']:
+        root = 'block-variable-captures-name-of-generated-class'        # e.g. a placeholder of the template
+    elif info['tol_text'] and info['tol_text'] != tolerance_text(block) \
+            and F(info['tol_text'] or '0') != tolerance(block):
+        root = 'module-written-with-another-blocks-tolerance'
+    elif not info['vector_tuple']:
+        root = 'one-variable-block-iteration-vector-is-not-a-tuple'
+    elif info['stage'] == 'import' and info['exc'].startswith('SyntaxError') and block.get('cm', 0) >= 2:
+        root = 'comment-text-breaks-the-module-docstring'
+    elif info['own_captured'] and all(nm.startswith('NEW_') for nm in info['own_captured']):
         root = 'block-variable-named-NEW_<variable>-captures-iterator-local'
     elif info['own_captured']:
         root = 'block-variable-captures-name-of-generated-class'
@@ -836,8 +920,8 @@ def _signature_of_generation(clause, block, want, endo, info):
         return 'raises:%s:%s' % (info['stage'], info['exc'].split(':')[0])
     if root and clause in ('C20_StepAppendsAll', 'C20_StepSatisfiesEquations', 'C20_AgreesWithInProcess',
                            'C20_HeaderTimeFirst'):
-        probe = _signature_of_generation(clause, block, want, endo, dict(info, own_captured=[], loop_captured=[]))
-        return root if probe is not None else None
+        plain = _signature_of_generation(clause, block, want, endo, info, probe=True)
+        return root if plain is not None else None
     if clause == 'C20_StepAppendsAll':
         kept = endo + [nm for nm in info['chained_lags'] if nm in info['series']]
         long_ = sorted(nm for nm in kept if len(info['series'].get(nm, [])) > block['maxTime'] + 1)
@@ -887,8 +971,9 @@ def signature(clause, block, events, rec):
     the regenerated one."""
     if rec.get('parse_exc'):
         return 'raises:parse:' + rec['parse_exc'].split(':')[0]
-    endo = [e['name'] for e in events[0].get('endo', [])]
-    want = endo + [e['name'] for e in events[0].get('exos', [])]
+    parse_ev = [e for e in events if e['ev'] in ('ParseBlock', 'Reparse')][-1]      # the block under test
+    endo = [e['name'] for e in parse_ev.get('endo', [])]
+    want = endo + [e['name'] for e in parse_ev.get('exos', [])]
     for gi, info in enumerate(rec.get('gens', [])):
         sig = _signature_of_generation(clause, block, want, endo, info)
         if sig is not None:
@@ -902,6 +987,8 @@ def nontrivial(block):
 
 def case_of(block, events=None, rec=None, regenerate=None):
     c = {'block': block, 'text': render(block)}
+    if 'first' in block:
+        c['text_of_the_block_the_generator_parsed_first'] = render(block['first'])
     if regenerate is not None:
         c['regenerate'] = bool(regenerate)
     if events is not None:
@@ -923,6 +1010,8 @@ def judge(rep, blocks, regen):
     traces = [(i, results[i][0]) for i in range(len(blocks))]
     for i, b in enumerate(blocks):
         small = dict({k: b[k] for k in GRAMMAR_FIELDS}, regenerate=bool(regen[i]))
+        if 'first' in b:
+            small['first'] = {k: b['first'][k] for k in GRAMMAR_FIELDS}
         rep.add_case(case_of(b, results[i][0], regenerate=regen[i]) if i < 3 else small, nontrivial(b))
     verdicts, st, tr = core.validate_traces('MC_Codegen_Trace', 'MC_Codegen_Trace.cfg', traces, tag='c20')
     rep.traces += len(traces)
@@ -987,15 +1076,21 @@ def run(rep):
                 raise core.MachineryError('the model rejects a block without a colliding name %r' % (b,))
         elif b.get('status') != 'ok' or b.get('steps') != b['block']['maxTime'] or b.get('generations') != 2:
             raise core.MachineryError('the model predicts a failing run for block %r' % (b,))
-        k = core.canonical(b['block'])
+        blk = dict(b['block'])
+        if 'n' in b.get('first', {}):                 # a two-block history: the block this generator parsed before
+            blk['first'] = b['first']
+        k = core.canonical(blk)
         if k not in seen:
             seen.add(k)
-            blocks.append(b['block'])
+            blocks.append(blk)
     if not blocks:
         raise core.MachineryError('TLC emitted no behaviours for ' + cfg)
     # smallest blocks first, so that the case stored for a violation is a minimal witness
-    blocks.sort(key=lambda b: (b['nm'], b['fn'] > 1 or b['tw'] > 0 or b['exo'] == 3, b['n'], b['maxTime'], b['lag'], b['exo'], b['cst'], int(b['useT']),
+    blocks.sort(key=lambda b: ('first' in b, b['cm'], b['nm'], b['fn'] > 1 or b['tw'] > 0 or b['exo'] == 3, b['n'], b['maxTime'], b['lag'], b['exo'], b['cst'], int(b['useT']),
                                int(b['ic']), b['tol'], core.canonical(b)))
+    rep.extra['two_block_histories_on_one_generator'] = sum(1 for b in blocks if 'first' in b)
+    rep.extra['blocks_that_are_a_time_axis_only'] = sum(1 for b in blocks if b['n'] == 0)
+    rep.extra['blocks_with_comments'] = sum(1 for b in blocks if b['cm'])
     rep.extra['blocks_without_user_time'] = sum(1 for b in blocks if b['userT'] == 'none')
     rep.extra['blocks_with_names_of_generated_locals'] = sum(1 for b in blocks if b['nm'] == 1)
     rep.extra['blocks_with_names_of_the_generated_class'] = sum(1 for b in blocks if b['nm'] == 2)
